@@ -13,6 +13,7 @@ import (
 	"strconv"
 	"strings"
 	"testing"
+	"time"
 
 	"github.com/styrainc/regal/pkg/fixer/fileprovider"
 	"github.com/styrainc/regal/pkg/fixer/fixes"
@@ -29,6 +30,22 @@ func (r *vrng) next() uint64 {
 }
 func (r *vrng) below(n int) int { return int(r.next() % uint64(n)) }
 func vchoice[T any](r *vrng, xs []T) T { return xs[r.below(len(xs))] }
+
+// hung is set when a call did not return within the watchdog time (a rename loop without end); the goroutine is
+// abandoned and no further sequence is run
+var hung bool
+
+func withWatchdog(f func() error) (err error, timedOut bool) {
+	done := make(chan error, 1)
+	go func() { done <- f() }()
+	select {
+	case e := <-done:
+		return e, false
+	case <-time.After(10 * time.Second):
+		hung = true
+		return nil, true
+	}
+}
 
 type vop struct {
 	Op   string `json:"op"` // put | delete | rename | move
@@ -124,10 +141,13 @@ func TestVerifC13(t *testing.T) {
 		seen[in] = true
 		emit(map[string]any{"kind": "cand", "in": []byte(in), "out": []byte(renameCandidate(in))})
 	}
-	for _, d := range dirs {
-		for _, s := range stems {
+	for di, d := range dirs {
+		for si, s := range stems {
 			for _, e := range exts {
-				cand(d + s + e)
+				// quick tier: every stem x extension below two directories, every directory with every fourth stem
+				if thorough || di < 2 || si%4 == di%4 {
+					cand(d + s + e)
+				}
 			}
 		}
 	}
@@ -162,7 +182,8 @@ func TestVerifC13(t *testing.T) {
 	if thorough {
 		nseq = 6000
 	}
-	for i := 0; i < nseq; i++ {
+	w.Flush()
+	for i := 0; i < nseq && !hung; i++ {
 		files := map[string]string{}
 		for j, p := range universe {
 			if rng.below(2) == 0 {
@@ -204,15 +225,30 @@ func TestVerifC13(t *testing.T) {
 				}
 			default:
 				op = vop{Op: "move", A: vchoice(rng, universe), B: vchoice(rng, universe), Root: vchoice(rng, []string{"/R", "/R/a"})}
-				err := fx.handleRename(fp, rep, starting, fixes.FixResult{
-					Title: "directory-package-mismatch", Root: op.Root,
-					Rename: &fixes.Rename{FromPath: op.A, ToPath: op.B},
+				if cur, _ := fp.List(); len(cur) > 0 && rng.below(5) > 0 { // mostly move files that exist
+					sort.Strings(cur)
+					op.A = vchoice(rng, cur)
+				}
+				opc := op
+				err, to := withWatchdog(func() error {
+					return fx.handleRename(fp, rep, starting, fixes.FixResult{
+						Title: "directory-package-mismatch", Root: opc.Root,
+						Rename: &fixes.Rename{FromPath: opc.A, ToPath: opc.B},
+					})
 				})
-				if err != nil {
+				if to {
+					status = "hang"
+				} else if err != nil {
 					status = "error"
 				}
 			}
 			ops = append(ops, op)
+		}
+		if status == "hang" {
+			emit(map[string]any{"kind": "seq", "policy": pol, "init": init, "starting": sorted(starting), "ops": ops, "status": status,
+				"files": [][2]string{}, "modified": []string{}, "deleted": []string{}, "conflicts": nil, "has_conflicts": false})
+			w.Flush()
+			return
 		}
 		emit(map[string]any{"kind": "seq", "policy": pol, "init": init, "starting": sorted(starting), "ops": ops, "status": status,
 			"files": sortedKeys(files), "modified": sorted(fp.ModifiedFiles()), "deleted": sorted(fp.DeletedFiles()),
@@ -224,7 +260,8 @@ func TestVerifC13(t *testing.T) {
 	if thorough {
 		nfs = 600
 	}
-	for i := 0; i < nfs; i++ {
+	w.Flush()
+	for i := 0; i < nfs && !hung; i++ {
 		td := t.TempDir()
 		real, _ := filepath.EvalSymlinks(td)
 		norm := func(p string) string { return "/R" + strings.TrimPrefix(p, real) }
@@ -273,14 +310,29 @@ func TestVerifC13(t *testing.T) {
 		status := "ok"
 		for k := 0; k < nops && status == "ok"; k++ {
 			op := vop{Op: "move", A: vchoice(rng, universe), B: vchoice(rng, append(universe, "/R/b/x_1.rego")), Root: "/R"}
-			err := fx.handleRename(fp, rep, starting, fixes.FixResult{
-				Title: "directory-package-mismatch", Root: denorm(op.Root),
-				Rename: &fixes.Rename{FromPath: denorm(op.A), ToPath: denorm(op.B)},
+			if cur, _ := fp.List(); len(cur) > 0 && rng.below(5) > 0 { // mostly move files that are held
+				sort.Strings(cur)
+				op.A = norm(vchoice(rng, cur))
+			}
+			opc := op
+			err, to := withWatchdog(func() error {
+				return fx.handleRename(fp, rep, starting, fixes.FixResult{
+					Title: "directory-package-mismatch", Root: denorm(opc.Root),
+					Rename: &fixes.Rename{FromPath: denorm(opc.A), ToPath: denorm(opc.B)},
+				})
 			})
-			if err != nil {
+			if to {
+				status = "hang"
+			} else if err != nil {
 				status = "error"
 			}
 			ops = append(ops, op)
+		}
+		if status == "hang" {
+			emit(map[string]any{"kind": "seq", "policy": pol, "init": init, "starting": []string{}, "disk": sorted(disk), "ops": ops, "status": status,
+				"files": [][2]string{}, "modified": []string{}, "deleted": []string{}, "conflicts": nil, "has_conflicts": false})
+			w.Flush()
+			return
 		}
 		var filesN [][2]string
 		lst, _ := fp.List()
